@@ -634,6 +634,9 @@ def c10_shards(tier, seed):
                 continue
             n = rounds if plan != "PageProtect" else max(1, rounds // 3)
             shards.append(gc_shard(variant, plan, rnd, n, mutators=rnd.choice([1, 1, 2]), heap=rnd.choice([12, 16, 24]), stress=0, scenario="oom"))
+    # dynamic heaps: the maximum, not the current size, decides what "larger than the heap" means
+    for plan in ["SemiSpace", "Immix", "MarkSweep", "GenImmix"]:
+        shards.append(gc_shard("A", plan, rnd, max(1, rounds // 2), mutators=1, heap=24, stress=0, scenario="oom", extra=["--dyn-heap", "4,24"]))
     return shards
 
 
@@ -649,7 +652,7 @@ gcsim("C10", "Out-of-memory and allocation-option contract",
       note="Requests within 1 MiB of the heap size are not judged for 'immediate' vs 'after a collection'. NoGC cannot collect and is excluded. Sizes above usize::MAX/2 are not used (size arithmetic of the caller's own alignment padding overflows).",
       design_ref="2/C10", shards=c10_shards,
       floors={"quick": {"requests_with_options": 3000, "oom_after_collection": 80, "oom_immediate_larger_than_heap": 800, "null_not_at_safepoint": 500, "null_oom_call_suppressed": 400,
-                        "overcommit_success_beyond_heap_size": 100, "requests_that_blocked_for_gc": 150, "heap_fill_rounds": 20}})
+                        "overcommit_success_beyond_heap_size": 100, "requests_that_blocked_for_gc": 150, "heap_fill_rounds": 20, "requests_between_current_and_maximum_heap": 10}})
 
 
 unit("C17", "Concurrent forwarding copies an object once and all tracers agree",
